@@ -73,7 +73,7 @@ func c16Gen(r *rand.Rand, tier string) []Case {
 		"fork # k=1 m=redelegate val=1 dst=0 amt=staked/2", "query # k=1 val=1"})
 	// fixed case: a validator's commission, withdrawn by its operator — a sizeable one, then one below a base unit
 	out = append(out, Case{"freset", "commission # val=0 reward=1000000000", "fork # k=1 m=withdrawValidatorCommission val=0", "commission # val=1 reward=5", "fork # k=1 m=withdrawValidatorCommission val=1",
-		"fork # k=1 m=withdrawValidatorCommission val=2"})
+		"fork # k=1 m=withdrawValidatorCommission val=2", "commission # val=0 reward=1000000000", "fork # k=1 m=withdrawValidatorCommission val=0 spell=upper"})
 	// fixed case: rewards earned at two validators, one of them leaves the bonded set, then everything is claimed at once
 	out = append(out, Case{"freset", "fork # k=1 m=delegate val=1 amt=3000000000000000000", "fork # k=1 m=delegate val=0 amt=1000000000000000000", "adv # dt=30000", "adv # dt=30000",
 		"fork # k=1 m=claimRewards", "adv # dt=30000", "jail # val=1", "fork # k=1 m=claimRewards", "fork # k=2 m=claimRewards"})
@@ -335,6 +335,9 @@ func c16Exec(c Case) (outs []string, fails []Failure, tags []string) {
 					// (an operator that sends transactions has an account; the EVM would create one for a sender without)
 					if app.AccountKeeper.GetAccount(env.ctx, sdk.AccAddress(vaddr)) == nil {
 						app.AccountKeeper.SetAccount(env.ctx, app.AccountKeeper.NewAccountWithAddress(env.ctx, sdk.AccAddress(vaddr)))
+					}
+					if kv["spell"] == "upper" {
+						va = strings.ToUpper(va) // the other spelling of a bech32 string: same address
 					}
 					msg := &distrtypes.MsgWithdrawValidatorCommission{ValidatorAddress: va}
 					native, to = msg, dst
